@@ -16,59 +16,80 @@ Variable SF : sfk.
 Lemma tailc_snoc : forall l i, tailc (l ++ [i]) = if (op i =? OP_RET)%N then [] else [mkI OP_VOID []; mkI OP_RET []].
 Proof. intros l i. unfold tailc. rewrite rev_app_distr. reflexivity. Qed.
 
-Lemma sc_last : forall st B CD B' rets c lr k, kstmt SF B CD st = Some (B', rets) ->
-  exists pre i, fst (sc path c lr k st) = pre ++ [i] /\ (op i = OP_RET -> is_ret st = true).
+(* outside a loop the items of the fragment are instructions *)
+Lemma sc_all_CI : forall st B CD r c lr sl k, kstmt SF false B CD st = Some r -> Forall is_CI (fst (sc path c lr sl k st)).
 Proof.
-  intros st B CD B' rets c lr k H. destruct st; try discriminate.
-  - rewrite sc_Assign. destruct (ec path c lr k e) as [ce fe]. exists ce, (mkI OP_STORE [x]). split; [reflexivity|discriminate].
-  - rewrite sc_Modify. destruct (ec path c lr k e) as [ce fe]. exists ce, (mkI OP_STORE_OBJECT [x]). split; [reflexivity|discriminate].
-  - rewrite sc_Print. destruct (ec path c lr k e) as [ce fe]. exists (ce ++ [mkI OP_PRINTN [s_star]]), (mkI OP_VOID []).
-    split; [cbn [fst]; now rewrite <- app_assoc|discriminate].
-  - rewrite sc_Expr. destruct (ec path c lr k e) as [ce fe]. exists ce, (mkI OP_VOID []). split; [reflexivity|discriminate].
-  - rewrite sc_SIf. destruct (ec path c lr k c0) as [cc fc]. destruct (bc path c lr (k + length fc) body) as [cb0 fb].
-    eexists. exists (mkI OP_DONE []). split; [cbn [fst]; rewrite !app_assoc; reflexivity|discriminate].
-  - rewrite sc_SIfElse. destruct (ec path c lr k c0) as [cc fc]. destruct (bc path c lr (k + length fc) body) as [cb0 fb].
-    destruct (bc path c lr (k + length fc + length fb) els) as [ce0 fe].
-    eexists. exists (mkI OP_DONE []). split; [cbn [fst]; rewrite app_comm_cons, !app_assoc; reflexivity|discriminate].
-  - rewrite sc_SWhile. destruct (ec path c lr k c0) as [cc fc]. destruct (bc path c lr (k + length fc) body) as [cb0 fb].
-    eexists. eexists. split; [cbn [fst]; rewrite !app_assoc; reflexivity|discriminate].
-  - destruct step; [discriminate|]. destruct name as [x|]; [|discriminate]. destruct collide; [discriminate|].
-    rewrite sc_SFrom. destruct (bc path c (S lr) k body) as [cbody fb].
-    eexists. exists (mkI OP_DELETE_NAME_SCOPED [x; lregn (S lr)]). split; [cbn [fst]; rewrite !app_assoc; reflexivity|discriminate].
-  - destruct e as [e|]; [|discriminate]. rewrite sc_Return. destruct (ec path c lr k e) as [ce fe].
-    exists ce, (mkI OP_RET []). split; [reflexivity|reflexivity].
+  intros st B CD r c lr sl k H.
+  exact (proj2 (proj2 (comp_both path) st SF false B CD r H c sl {| fid := k; lreg := lr; fbuf := [] |}) eq_refl).
+Qed.
+Lemma bc_all_CI : forall l B CD r c lr sl k, kblock SF false B CD l = Some r -> Forall is_CI (fst (bc path c lr sl k l)).
+Proof.
+  intros l B CD r c lr sl k H.
+  exact (proj2 (comp_block path l ltac:(apply Forall_forall; intros st _; apply (proj2 (comp_both path))) SF false B CD r H c sl {| fid := k; lreg := lr; fbuf := [] |}) eq_refl).
 Qed.
 
-Lemma bc_app : forall c lr l1 l2 k, fst (bc path c lr k (l1 ++ l2)) =
-  fst (bc path c lr k l1) ++ fst (bc path c lr (k + length (snd (bc path c lr k l1))) l2).
+Lemma sc_last : forall st B CD B' rets c lr k, kstmt SF false B CD st = Some (B', rets) ->
+  exists pre i, fst (sc path c lr None k st) = pre ++ [CI i] /\ (op i = OP_RET -> isret st = true).
 Proof.
-  intros c lr. induction l1 as [|st l1 IH]; intros l2 k.
+  intros st B CD B' rets c lr k H. destruct st; try discriminate.
+  - rewrite sc_Assign. destruct (ec path c lr k e) as [ce fe]. exists (map CI ce), (mkI OP_STORE [x]). split; [reflexivity|discriminate].
+  - rewrite sc_Modify. destruct (ec path c lr k e) as [ce fe]. exists (map CI ce), (mkI OP_STORE_OBJECT [x]). split; [reflexivity|discriminate].
+  - rewrite sc_OpAssign. destruct (ec path (S c) lr k e) as [ce fe]. exists (map CI ce ++ [I OP_BIN_OP_ASSIGN [binop_sym o ++ [61%N]; x]]), (mkI OP_VOID []).
+    split; [cbn [fst]; now rewrite <- app_assoc|discriminate].
+  - rewrite sc_Print. destruct (ec path c lr k e) as [ce fe]. exists (map CI ce ++ [I OP_PRINTN [s_star]]), (mkI OP_VOID []).
+    split; [cbn [fst]; now rewrite <- app_assoc|discriminate].
+  - rewrite sc_Assert. destruct (ec path c lr k e) as [ce fe]. exists (map CI ce), (mkI OP_ASSERT [span]). split; [reflexivity|discriminate].
+  - rewrite sc_Expr. destruct (ec path c lr k e) as [ce fe]. exists (map CI ce), (mkI OP_VOID []). split; [reflexivity|discriminate].
+  - rewrite sc_SIf. destruct (ec path c lr k c0) as [cc fc]. destruct (bc path c lr (option_map S None) (k + length fc) body) as [cb0 fb].
+    eexists. exists (mkI OP_DONE []). split; [cbn [fst]; rewrite !app_assoc; reflexivity|discriminate].
+  - rewrite sc_SIfElse. destruct (ec path c lr k c0) as [cc fc]. destruct (bc path c lr (option_map S None) (k + length fc) body) as [cb0 fb].
+    destruct (bc path c lr (option_map S None) (k + length fc + length fb) els) as [ce0 fe].
+    eexists. exists (mkI OP_DONE []). split; [cbn [fst]; rewrite app_comm_cons, !app_assoc; reflexivity|discriminate].
+  - rewrite sc_SIfElif. destruct (ec path c lr k c0) as [cc fc]. destruct (bc path c lr (option_map S None) (k + length fc) body) as [cb0 fb].
+    destruct (sc path c lr (option_map S None) (k + length fc + length fb) st) as [ce0 fe].
+    eexists. exists (mkI OP_DONE []). split; [cbn [fst]; rewrite app_comm_cons, !app_assoc; reflexivity|discriminate].
+  - rewrite sc_SWhile. destruct (ec path c lr k c0) as [cc fc]. destruct (bc path c lr (Some 1) (k + length fc) body) as [cb0 fb].
+    cbn [fst]. unfold I. rewrite resolve_snoc_CI.
+    eexists. eexists. split; [rewrite !app_assoc; reflexivity|discriminate].
+  - destruct step; [discriminate|]. destruct name as [x|]; [|discriminate]. destruct collide; [discriminate|].
+    rewrite sc_SFrom. destruct (bc path c (S lr) (Some 1) k body) as [cbody fb].
+    eexists. exists (mkI OP_DELETE_NAME_SCOPED [x; lregn (S lr)]). split; [cbn [fst]; rewrite !app_assoc; reflexivity|discriminate].
+  - destruct e as [e|].
+    + rewrite sc_Return. destruct (ec path c lr k e) as [ce fe]. exists (map CI ce), (mkI OP_RET []). split; [reflexivity|reflexivity].
+    + exists [], (mkI OP_RET []). split; reflexivity.
+Qed.
+
+Lemma bc_app : forall c lr sl l1 l2 k, fst (bc path c lr sl k (l1 ++ l2)) =
+  fst (bc path c lr sl k l1) ++ fst (bc path c lr sl (k + length (snd (bc path c lr sl k l1))) l2).
+Proof.
+  intros c lr sl. induction l1 as [|st l1 IH]; intros l2 k.
   - cbn [app bc fst snd length]. now rewrite Nat.add_0_r.
-  - cbn [app bc]. destruct (sc path c lr k st) as [cs fs]. specialize (IH l2 (k + length fs)).
-    destruct (bc path c lr (k + length fs) (l1 ++ l2)) as [cl fl]. destruct (bc path c lr (k + length fs) l1) as [cl1 fl1].
+  - cbn [app bc]. destruct (sc path c lr sl k st) as [cs fs]. specialize (IH l2 (k + length fs)).
+    destruct (bc path c lr sl (k + length fs) (l1 ++ l2)) as [cl fl]. destruct (bc path c lr sl (k + length fs) l1) as [cl1 fl1].
     cbn [fst snd] in *. rewrite IH, app_length, Nat.add_assoc, app_assoc. reflexivity.
 Qed.
 
-Lemma kblock_snoc : forall l B CD st B' rets, kblock SF B CD (l ++ [st]) = Some (B', rets) -> exists B1 B2 r2, kstmt SF B1 CD st = Some (B2, r2).
+Lemma kblock_snoc : forall l il B CD st B' rets, kblock SF il B CD (l ++ [st]) = Some (B', rets) -> exists B1 B2 r2, kstmt SF il B1 CD st = Some (B2, r2).
 Proof.
-  induction l as [|x l IH]; intros B CD st B' rets H; cbn [app kblock] in H.
-  - destruct (kstmt SF B CD st) as [[B1 r1]|] eqn:E; [|discriminate]. eauto.
-  - destruct (kstmt SF B CD x) as [[B1 r1]|]; [|discriminate]. destruct (kblock SF B1 CD (l ++ [st])) as [[B3 r3]|] eqn:E; [|discriminate]. eauto.
+  induction l as [|x l IH]; intros il B CD st B' rets H; cbn [app kblock] in H.
+  - destruct (kstmt SF il B CD st) as [[B1 r1]|] eqn:E; [|discriminate]. eauto.
+  - destruct (kstmt SF il B CD x) as [[B1 r1]|]; [|discriminate]. destruct (kblock SF il B1 CD (l ++ [st])) as [[B3 r3]|] eqn:E; [|discriminate]. eauto.
 Qed.
 
-Lemma bc_ends_ret : forall body B CD B' rets c lr k, kblock SF B CD body = Some (B', rets) ->
-  tailc (fst (bc path c lr k body)) = [] -> ends_ret body = true.
+Lemma bc_ends_ret : forall body B CD B' rets c lr k, kblock SF false B CD body = Some (B', rets) ->
+  tailc (strip (fst (bc path c lr None k body))) = [] -> endsret body = true.
 Proof.
   intros body B CD B' rets c lr k Hk Ht.
   destruct (rev body) as [|st rl] eqn:E.
   - apply (f_equal (@rev stmt)) in E. rewrite rev_involutive in E. subst body. discriminate.
   - apply (f_equal (@rev stmt)) in E. rewrite rev_involutive in E. cbn [rev] in E. subst body.
-    rewrite ends_ret_snoc. destruct (kblock_snoc _ _ _ _ _ _ Hk) as (B1 & B2 & r2 & Hst).
+    rewrite endsret_snoc. destruct (kblock_snoc _ _ _ _ _ _ _ Hk) as (B1 & B2 & r2 & Hst).
     rewrite bc_app in Ht.
-    set (k' := k + length (snd (bc path c lr k (rev rl)))) in *.
-    assert (E1 : fst (bc path c lr k' [st]) = fst (sc path c lr k' st)).
-    { cbn [bc]. destruct (sc path c lr k' st) as [cs fs]. cbn [fst]. now rewrite app_nil_r. }
-    rewrite E1 in Ht. destruct (sc_last st B1 CD B2 r2 c lr k' Hst) as (pre & i & Es & Hl). rewrite Es, app_assoc, tailc_snoc in Ht.
+    set (k' := k + length (snd (bc path c lr None k (rev rl)))) in *.
+    assert (E1 : fst (bc path c lr None k' [st]) = fst (sc path c lr None k' st)).
+    { cbn [bc]. destruct (sc path c lr None k' st) as [cs fs]. cbn [fst]. now rewrite app_nil_r. }
+    rewrite E1 in Ht. destruct (sc_last st B1 CD B2 r2 c lr k' Hst) as (pre & i & Es & Hl). rewrite Es, app_assoc, strip_snoc in Ht.
+    cbn [strip] in Ht. rewrite tailc_snoc in Ht.
     apply Hl. destruct (op i =? OP_RET)%N eqn:Eo; [now apply N.eqb_eq|discriminate].
 Qed.
 End Last.
@@ -235,7 +256,9 @@ Proof.
   assert (Hlp : length ps = length pk) by (rewrite Epk, map_length; reflexivity).
   unfold call_clos_.
   set (fv := RClos ps body cenv) in *.
-  set (cb0 := fst (bc path (S d) lr k body)) in *.
+  set (its := fst (bc path (S d) lr None k body)) in *.
+  assert (Hits : Forall is_CI its) by (exact (bc_all_CI path _ body _ G _ (S d) lr None k Hkb)).
+  set (cb0 := strip its) in *.
   assert (Efc : fcd = pcodeP 0 ps ++ cb0 ++ tailc cb0) by reflexivity.
   assert (Hlenc : length fcd = 2 * length ps + length cb0 + length (tailc cb0)).
   { rewrite Efc, !app_length, pcodeP_length. lia. }
@@ -257,12 +280,15 @@ Proof.
   assert (Eenv : env1 = {| locals := [sc]; captured := cenv; cur := Some fv |}) by (rewrite (fenv_eta env1), El1, Ec1, Eu1; reflexivity).
   subst env1.
   (* the body *)
-  pose proof (bspec_all path prog loc fcd cbf G (frames g1) (Some (pk, r)) (S d) Hsm fuel IH body b1 (rev (combine ps pk)) lr k fuel (2 * length ps)
+  pose proof (bspec_all path prog loc fcd cbf G (frames g1) (Some (pk, r)) (S d) Hsm fuel IH body b1 (rev (combine ps pk)) lr false None 0 0 k fuel (2 * length ps)
                 a1 gq {| locals := [sc]; captured := cenv; cur := Some fv |} s1 B' rets (le_n _) Hkb Hb1 Hinb) as H.
-  fold cb0 in H.
-  specialize (H ltac:(rewrite Efc, <- (pcodeP_length ps 0); apply code_at_embed)
+  fold its in H.
+  assert (Hlits : length its = length cb0) by (unfold cb0; rewrite <- (CI_strip its Hits) at 1; apply map_length).
+  rewrite Hlits in H.
+  specialize (H ltac:(apply items_at_strip; [exact Hits|]; fold cb0; rewrite Efc, <- (pcodeP_length ps 0); apply code_at_embed)
                 ltac:(destruct (tailc_cases cb0) as [Et|Et]; [left; rewrite Hlenc, Et; cbn [length]; lia|
                       right; split; [exact (bc_ends_ret path _ body _ G B' rets (S d) lr k Hkb Et)|rewrite Hlenc, Et; cbn [length]; lia]])
+                ltac:(split; [discriminate|intros m Hm; discriminate Hm])
                 Hip1 ltac:(rewrite (proj2 (proj2 Ha1)); reflexivity) Hops1 ltac:(cbn [locals length]; lia) HC1).
   assert (Egp : cells gP = cells g1) by reflexivity.
   assert (Hbext : forall b' s' g', bext b1 b' s1 gq -> lens s1 s' gq g' -> bext b b' s g1).
@@ -278,7 +304,9 @@ Proof.
       destruct (run_fn_fail prog loc fcd ws cbf g1 e g' Hcode ltac:(eapply xrun_fail; [exact R1|exact Hf])) as [fuel' Hrun].
       exists fuel', e, g'. auto. }
   cbn [spost] in H. destruct H as [Hd2 H].
-  destruct sig as [| | |[v|]]; try contradiction.
+  destruct sig as [| | |[v|]].
+  2:{ destruct H as (m & _ & _ & _ & Hsl & _). discriminate Hsl. }
+  2:{ destruct H as (m & _ & _ & _ & Hsl & _). discriminate Hsl. }
   - (* the body completes without `return`: no value *)
     destruct H as (_ & a2 & g2 & b2 & SM2 & Hip2 & Hops2 & HC2).
     split; [destruct Htot as [Ht|Ht]; [exact Ht|exfalso; exact (last_ret_sig _ _ _ _ _ _ Ht Eex)]|].
@@ -336,6 +364,22 @@ Proof.
     split; [exact F1|]. split; [rewrite F2; exact Ho2|].
     split; [intros c' w0 Hc' Hn0; unfold cell_get; rewrite F3; exact (Hkeep _ K2 c' w0 Hc' Hn0)|].
     destruct (Hlens _ _ L2) as [X1 X2]. split; [exact X1|rewrite F3; exact X2].
+  - (* return (no value) *)
+    destruct H as (a2 & g2 & b2 & R2 & Hi2 & Hops2 & E2 & Hh2 & Hk2 & Ho2 & Hdr2 & K2 & L2).
+    split; [symmetry; exact (Hrets KN Hk2)|].
+    assert (Hl : exists gf, (forall f0 k0, loop rcT (run_fn f0 prog) loc fcd (S (S (S k0))) a2 g2 = RDone None gf) /\
+                            frames gf = frames g1 /\ out gf = out g2 /\ cells gf = cells g2).
+    { eexists. split; [intros f0 k0|].
+      - cbn [loop]. rewrite Hi2. unfold Model.exec. change (decode (mkI OP_RET [])) with (DOk DRet). cbn [exec_d].
+        rewrite Hops2. cbn [add_trace frames]. rewrite Hdr2. reflexivity.
+      - cbn [with_frames frames out cells add_trace]. auto. }
+    destruct Hl as (gf & Hl & F1 & F2 & F3).
+    destruct (run_fn_finish prog loc fcd ws cbf g1 a2 g2 _ Hcode ltac:(eapply xrun_trans; [exact R1|exact R2]) Hl) as [fuel' Hrun].
+    exists fuel', gf, b2. split; [exact Hrun|]. split; [exact (Hbext _ _ _ E2 L2)|].
+    split; [eapply heap_ok_same; [exact Hh2|reflexivity|exact F3]|].
+    split; [exact F1|]. split; [rewrite F2; exact Ho2|].
+    split; [intros c' w0 Hc' Hn0; unfold cell_get; rewrite F3; exact (Hkeep _ K2 c' w0 Hc' Hn0)|].
+    destruct (Hlens _ _ L2) as [X1 X2]. split; [exact X1|rewrite F3; exact X2].
 Qed.
 End Calls.
 
@@ -363,11 +407,11 @@ Qed.
 (* the decidable fragment with first-class functions: the module is well-kinded, and the code generator's output is what
    ec / sc / bc say (checked on the program itself; Compile/ClosFrag.v comp_both shows it always is) *)
 Definition in_fragment2 (path : str) (p : source) : bool :=
-  match kblock None [] [] p with
+  match kblock None false [] [] p with
   | Some _ =>
     let prog := cprogram path p in
-    let mc := fst (bc path 0 0 0 p) ++ [ret_mod] in
-    installedb prog (snd (bc path 0 0 0 p)) &&
+    let mc := strip (fst (bc path 0 0 None 0 p)) ++ [ret_mod] in
+    installedb prog (snd (bc path 0 0 None 0 p)) &&
     match assoc (s_module_fn path) prog with Some c => code_eqb c mc | None => false end &&
     smallb2 (0 + 2 * length mc + 8)
   | None => false
@@ -379,9 +423,11 @@ Theorem closure_module_correct : forall path p, in_fragment2 path p = true ->
                 vm_outcome_ok (snd (run fuel p)) (snd (fst (execute fuel' (cprogram path p) (s_module_fn path)))).
 Proof.
   intros path p Hin fuel Hnf. unfold in_fragment2 in Hin.
-  destruct (kblock None [] [] p) as [[B' rets]|] eqn:Hk; [|discriminate].
+  destruct (kblock None false [] [] p) as [[B' rets]|] eqn:Hk; [|discriminate].
   set (P := cprogram path p) in *. set (name := s_module_fn path) in *.
-  set (cbm := fst (bc path 0 0 0 p)) in *. set (mc := cbm ++ [ret_mod]) in *.
+  set (its := fst (bc path 0 0 None 0 p)) in *.
+  assert (Hits : Forall is_CI its) by (exact (bc_all_CI path None p [] [] _ 0 0 None 0 Hk)).
+  set (cbm := strip its) in *. set (mc := cbm ++ [ret_mod]) in *.
   cbv zeta in Hin. rewrite !andb_true_iff in Hin. destruct Hin as [[Hinst Hcode] Hsm].
   apply installedb_sound in Hinst. apply smallb2_sound in Hsm.
   destruct (assoc name P) as [c|] eqn:Ecode; [|discriminate]. apply code_eqb_eq in Hcode. subst c.
@@ -392,14 +438,20 @@ Proof.
   assert (Hh0 : heap_ok path P b0 s0 g0) by (split; [intros c c' k []|intros c1 c1' k1 c2 c2' k2 []]).
   pose proof (Cl_entry path P b0 s0 g0 [] [] name None None None Hh0 eq_refl ltac:(constructor) ltac:(intros x kx []) ltac:(constructor) Logic.I) as HC0.
   fold env0 gP in HC0.
-  pose proof (bspec_all path P name mc None [] [] None 0 Hsm fuel (fun f _ => call_sim_all path P f) p b0 [] 0 0 fuel 0 a0 gP env0 s0 B' rets
-                (le_n _) Hk ltac:(split; [intros x; cbn; split; [congruence|intros []]|intros x []]) Hinst
-                ltac:(exact (code_at_embed [] cbm [ret_mod])) ltac:(left; unfold mc; rewrite app_length; cbn [length]; fold cbm; lia)
-                eq_refl eq_refl eq_refl ltac:(cbn; lia) HC0) as H.
-  fold cbm in H. cbn [Nat.add] in H.
+  assert (Hlits : length its = length cbm) by (unfold cbm; rewrite <- (CI_strip its Hits) at 1; apply map_length).
+  pose proof (bspec_all path P name mc None [] [] None 0 Hsm fuel (fun f _ => call_sim_all path P f) p b0 [] 0 false None 0 0 0 fuel 0 a0 gP env0 s0 B' rets
+                (le_n _) Hk ltac:(split; [intros x; cbn; split; [congruence|intros []]|intros x []]) Hinst) as H.
+  fold its in H. rewrite Hlits in H.
+  specialize (H ltac:(apply items_at_strip; [exact Hits|]; exact (code_at_embed [] cbm [ret_mod]))
+                ltac:(left; unfold mc; rewrite app_length; cbn [length]; lia)
+                ltac:(split; [discriminate|intros m Hm; discriminate Hm])
+                eq_refl eq_refl eq_refl ltac:(cbn; lia) HC0).
+  cbn [Nat.add] in H.
   unfold run in *. fold env0 s0 in Hnf |- *.
   destruct (exec_block fuel env0 p s0) as [sig env' s'|f s'|]; [| |cbn in Hnf; congruence].
-  - cbn [spost] in H. destruct H as [Hd H]. destruct sig as [| | |[v|]]; try contradiction.
+  - cbn [spost] in H. destruct H as [Hd H]. destruct sig as [| | |[v|]].
+    2:{ destruct H as (m & _ & _ & _ & Hsl & _). discriminate Hsl. }
+    2:{ destruct H as (m & _ & _ & _ & Hsl & _). discriminate Hsl. }
     + destruct H as (_ & a' & g' & b' & SM & Hip & Hops & HC).
       unfold smid in SM. destruct SM as (Hn & _).
       pose proof (same_tl_length env0 env' ltac:(cbn; discriminate) Hd) as Hl. cbn [env0 locals length] in Hl.
@@ -425,6 +477,22 @@ Proof.
       destruct (xrun_loop _ _ _ _ _ _ _ Hn) as (N & n & Hloop).
       set (f0 := Nat.max N (n + 1)).
       assert (Hrun : exists tr'', run_fn (S f0) P name [] None g0 = RDone (Some w) {| cells := cells g'; frames := []; out := out g'; trace := tr'' |}).
+      { eexists. unfold run_fn. rewrite run_fn_gen_S, Ecode.
+        change (run_fn_gen (fun _ _ _ => true) f0 P) with (run_fn f0 P).
+        change (fun (_ : str) (_ : nat) (_ : bool) => true) with rcT.
+        replace f0 with (n + (f0 - n)) at 2 by (unfold f0; lia).
+        fold a0 gP. rewrite (Hloop f0 ltac:(unfold f0; lia)).
+        destruct (f0 - n) as [|k1] eqn:Ek; [unfold f0 in Ek; lia|].
+        cbn [loop]. rewrite Hi. unfold Model.exec. change (decode (mkI OP_RET [])) with (DOk DRet). cbn [exec_d].
+        rewrite Hops. cbn [add_trace frames with_frames]. rewrite Hdrop. reflexivity. }
+      destruct Hrun as (tr'' & Hrun). right.
+      exists (S f0). unfold execute. fold P name. rewrite Hrun. cbn [fst snd frames out].
+      split; [exact Ho|exact Logic.I].
+    + (* a bare `return` at module level *)
+      destruct H as (a' & g' & b' & Hn & Hi & Hops & _ & _ & _ & Ho & Hdrop & _).
+      destruct (xrun_loop _ _ _ _ _ _ _ Hn) as (N & n & Hloop).
+      set (f0 := Nat.max N (n + 1)).
+      assert (Hrun : exists tr'', run_fn (S f0) P name [] None g0 = RDone None {| cells := cells g'; frames := []; out := out g'; trace := tr'' |}).
       { eexists. unfold run_fn. rewrite run_fn_gen_S, Ecode.
         change (run_fn_gen (fun _ _ _ => true) f0 P) with (run_fn f0 P).
         change (fun (_ : str) (_ : nat) (_ : bool) => true) with rcT.
